@@ -585,7 +585,9 @@ func BuildFromAliasedTable(query *Query, as string, expr sqlparser.SimpleTableEx
 			if err != nil {
 				return err
 			}
-			query.postProcessors = append(query.postProcessors, subquery.postProcessors...)
+			// (settle, not a copy of the list: what the derived table's deferred
+			// work defers in turn is registered with the derived table)
+			query.postProcessors = append(query.postProcessors, subquery.settle)
 			query.wg.Add(1)
 			go func() {
 				subquery.wg.Wait()
@@ -1364,7 +1366,7 @@ func SubqueryExpr(query *Query, current Map, expr *sqlparser.Subquery, opts ...E
 	if err != nil {
 		return nil, err
 	}
-	query.postProcessors = append(query.postProcessors, subQuery.postProcessors...)
+	query.postProcessors = append(query.postProcessors, subQuery.settle)
 	query.wg.Add(1)
 	go func() {
 		subQuery.wg.Wait()
@@ -1422,7 +1424,7 @@ func ExistExpr(query *Query, current Map, expr *sqlparser.ExistsExpr, opts ...Ex
 	if !ok {
 		return false, INVALID_TYPE.Extend(fmt.Sprintf("failed to build `EXIST` expression. expected an array but found %T", array))
 	}
-	query.postProcessors = append(query.postProcessors, q.postProcessors...)
+	query.postProcessors = append(query.postProcessors, q.settle)
 	query.wg.Add(1)
 	go func() {
 		q.wg.Wait()
@@ -1873,6 +1875,7 @@ func (query *Query) exec() (result any, err error) {
 		case []any:
 			{
 				copy := CopyQuery(query)
+				copy.postProcessors = nil
 				copy.from = current
 				rs, err := copy.exec()
 				if err != nil {
@@ -1881,7 +1884,7 @@ func (query *Query) exec() (result any, err error) {
 				// what the copy deferred is this query's to finish: the post-processors it
 				// registered (they take the `<-` marker out of `*` rows and resolve ASYNC
 				// slots) and the asynchronous calls it started
-				query.postProcessors = copy.postProcessors
+				query.postProcessors = append(query.postProcessors, copy.settle)
 				query.wg.Add(1)
 				go func() {
 					copy.wg.Wait()
